@@ -9,10 +9,11 @@ from .. import progs, corpus
 
 ID = "C07"
 LEAN_MODULES = ["PycModel.Properties.C07"]
-NAMESPACES = ["PycModel.C07", "PycModel.Tables", "PycModel.TablesG", "PycModel.GenParen"]
+NAMESPACES = ["PycModel.C07", "PycModel.Tables", "PycModel.TablesG", "PycModel.GenParen", "PycModel.GenExpr"]
 REQUIRED_THEOREMS = ["PycModel.TablesG.impl_gen_prec_is_parser_prec", "PycModel.TablesG.model_gen_precedence",
                      "PycModel.TablesG.model_gen_visit_methods",
-                     "PycModel.C07.binary_parenthesisation_sufficient", "PycModel.GenParen.wf_genP", "PycModel.GenParen.toVal_genP"]
+                     "PycModel.C07.binary_parenthesisation_sufficient", "PycModel.GenParen.wf_genP", "PycModel.GenParen.toVal_genP",
+                     "PycModel.C07.generated_expression_reparses", "PycModel.GenExpr.wf_G", "PycModel.GenExpr.shape_G"]
 LEVEL = "proof"
 TRUSTED = ["Generator.lean is a hand-written model of c_generator.py, tied by differential runs (text equality on every program of the pool, both configurations)"]
 ASSUMPTIONS = []
@@ -69,7 +70,7 @@ def run(ctx):
     for t in sample[: (150 if ctx.quick() else 3000)]:
         muts.extend(mutants(rng, corpus.lex_tokens(t), 4))
     texts = list(dict.fromkeys(texts + muts))
-    ctx.rule(progs.RULE + "; plus accepted token-level mutants of a sample; both generator configurations; distinct by text, counted when accepted")
+    ctx.rule(progs.RULE + "; plus accepted token-level mutants of a sample; both generator configurations; distinct by text, counted when accepted; for every maximal expression node of every accepted program the tokens CGenerator prints = the tokens of GenExpr.G on the same AST (tie of C07.generated_expression_reparses to the real generator)")
     res = pmap(roundtrip, texts)
     # generator model vs real generator *on the same tree*: the real AST is dumped and handed to the
     # Lean generator model, so this correspondence does not depend on the parser (model or real)
@@ -90,8 +91,79 @@ def run(ctx):
             ctx.violation("generated text of the real generator differs from the Lean generator model on %r" % t[:160], {"kind": "text", "text": t}, classify)
         j += 1
     ctx.count(len(texts), nontrivial_keys=keys)
+    # the tie of the round-trip theorem (C07.generated_expression_reparses) to the real generator: for
+    # every maximal expression node of every accepted program, the tokens of what CGenerator prints
+    # are the tokens of GenExpr.G on the same AST, for both settings of reduce_parentheses
+    if ctx.model_available:
+        et = pmap(_expr_tokens, acc)
+        ok = [(t, e) for t, e in zip(acc, et) if e is not None]
+        gx = run_model([req("gx", e[0]) for _, e in ok])
+        n_nodes = n_conv = 0
+        for (t, (_, rows)), line in zip(ok, gx):
+            f = line.split("\t")
+            if f[0] != "OK":
+                ctx.violation("Lean driver could not read the AST of %r (%s)" % (t[:100], f[0]), {"kind": "gx", "text": t})
+                continue
+            mine = [unesc(x) for x in f[1:] if x != ""]
+            if len(mine) != len(rows):
+                ctx.violation("expression nodes found by the harness (%d) and by the Lean driver (%d) differ on %r" % (len(rows), len(mine), t[:100]), {"kind": "gx", "text": t})
+                continue
+            for a, b in zip(rows, mine):
+                n_nodes += 1
+                if b == "-" or a is None:
+                    continue
+                n_conv += 1
+                if a != b:
+                    ctx.violation("tokens printed by CGenerator for an expression differ from GenExpr.G (the parenthesisation the round-trip theorem is about): real %r, model %r, in %r" % (a[:150], b[:150], t[:100]), {"kind": "gx", "text": t}, classify)
+                    break
+        ctx.count(n_conv, nontrivial_n=n_conv)
+        ctx.extra["expression_nodes"] = n_nodes
+        ctx.extra["expression_nodes_in_theorem_fragment"] = n_conv
     ctx.sample({"kind": "roundtrip", "text": acc[len(acc) // 2] if acc else ""})
     ctx.extra["accepted_programs"] = len(acc)
+
+
+EXPR_CLASSES = {"ID", "Constant", "UnaryOp", "ArrayRef", "StructRef", "FuncCall", "BinaryOp", "TernaryOp", "Assignment", "ExprList", "Cast"}
+
+
+def _expr_tokens(t):
+    """(dump of the AST, per maximal expression node in slot order: the token spellings of what the real
+    generator prints for it, 'reduce_parentheses' off | on) - the Lean side computes the same list from
+    the same dump with GenExpr.G, the function the round-trip theorem is about"""
+    r = py_parse_obj(t, "")
+    if r[0] != "OK":
+        return None
+    from pycparser import c_ast
+    from pycparser.c_generator import CGenerator
+    out = []
+
+    def walk(v):
+        if isinstance(v, (list, tuple)):
+            for x in v:
+                walk(x)
+            return
+        if not isinstance(v, c_ast.Node):
+            return
+        if type(v).__name__ in EXPR_CLASSES:
+            row = []
+            for rp in (False, True):
+                try:
+                    txt = CGenerator(reduce_parentheses=rp).visit(v)
+                    row.append(" ".join(val for _, val in corpus.lex_tokens(txt)))
+                except RecursionError:
+                    row = None
+                    break
+                except Exception as e:  # noqa
+                    row.append("<%s>" % type(e).__name__)
+            out.append(None if row is None else "|".join(row))
+            return
+        for slot in v.__slots__[:-2]:
+            walk(getattr(v, slot))
+    try:
+        walk(r[1])
+        return (dump(r[1], False), out)
+    except RecursionError:
+        return None
 
 
 def _pygen_and_dump(t):
@@ -102,6 +174,14 @@ def _pygen_and_dump(t):
 
 
 def replay(ctx, payload):
+    if payload["input"].get("kind") == "gx":
+        e = _expr_tokens(payload["input"]["text"])
+        if e is None:
+            return True
+        f = run_model([req("gx", e[0])])[0].split("\t")
+        mine = [unesc(x) for x in f[1:] if x != ""]
+        print(e[1], mine)
+        return f[0] == "OK" and len(mine) == len(e[1]) and all(a is None or b == "-" or a == b for a, b in zip(e[1], mine))
     r = roundtrip(payload["input"]["text"])
     print("round trip:", r)
     return r is None or r == "skip"
